@@ -321,7 +321,15 @@ def _install(ctx):
                 if "ligated" in mol.nodes[n]:
                     ctx.ligated[(ti, n)] = tuple(mol.nodes[n]["ligated"])
         try:
-            return real_run_system(self, molecules)
+            out = real_run_system(self, molecules)
+            if ctx.job.get("rerun_build"):
+                # the same builder is asked a second time for the (now complete) system, as a two-stage script
+                # would do: nothing is left to build, so nothing may be placed, moved or removed
+                ctx.rec.emit("stage", name="rebuild")
+                ctx.stage = "rebuild"
+                ctx.probe("second_run_system_on_complete_system")
+                out = real_run_system(self, molecules)
+            return out
         finally:
             ctx.building = False
 
@@ -385,6 +393,23 @@ def _install(ctx):
     fake_opt = types.SimpleNamespace(minimize=fake_minimize)
     fake_scipy = types.SimpleNamespace(optimize=fake_opt)
     patch(bm, "scipy", fake_scipy)
+
+    # ---- residue positions handed to the backmapping as integer arrays (value-preserving): legal API input, e.g.
+    # centres that lie on a lattice
+    real_bm_run = bm.Backmap.run_molecule
+
+    def bm_run_molecule(self, meta_molecule):
+        if ctx.job.get("int_positions"):
+            for n in meta_molecule.nodes:
+                p = meta_molecule.nodes[n].get("position")
+                if p is not None:
+                    arr = np.asarray(p, dtype=float)
+                    if np.all(np.isfinite(arr)) and np.all(arr == np.round(arr)):
+                        meta_molecule.nodes[n]["position"] = arr.astype(int)
+                        ctx.fault("position_as_integer_array")
+        return real_bm_run(self, meta_molecule)
+
+    patch(bm.Backmap, "run_molecule", bm_run_molecule)
 
     # ---- RNG re-seeding from OS entropy -> from sys stream
     real_np_seed = np.random.seed
@@ -768,6 +793,9 @@ def write_inputs(job, workdir):
     if job.get("coord_text") is not None:
         with open(os.path.join(workdir, "input." + job.get("coord_ext", "gro")), "w") as fh:
             fh.write(job["coord_text"])
+    if job.get("meta_text") is not None:
+        with open(os.path.join(workdir, "input_meta.gro"), "w") as fh:
+            fh.write(job["meta_text"])
 
 
 def gen_coords_kwargs(job, workdir):
@@ -794,6 +822,8 @@ def gen_coords_kwargs(job, workdir):
             kw["coordpath_meta"] = Path(workdir) / "input.gro"
         else:
             kw["coordpath"] = Path(workdir) / ("input." + job.get("coord_ext", "gro"))
+    if job.get("meta_text") is not None:
+        kw["coordpath_meta"] = Path(workdir) / "input_meta.gro"      # -c and -mc together
     return kw
 
 
